@@ -84,7 +84,7 @@ const T_SEC: u32 = 128;
 const L_SEC: u32 = 40;
 
 /// public values of the tolerance proof for commitment `e` and interval [a, b]: (E_prime, E_a, E_b)
-fn public_parts(p: &Params, e: &Integer, a: &Integer, b: &Integer) -> (Integer, Integer, Integer) {
+pub fn public_parts(p: &Params, e: &Integer, a: &Integer, b: &Integer) -> (Integer, Integer, Integer) {
     let w = (b - a).complete();
     let t_big = 2 * (T_SEC + L_SEC + 1) + w.significant_bits();
     let e_prime = Integer::from(e.pow_mod_ref(&Integer::from(2).pow(t_big), &p.n).unwrap());
@@ -94,6 +94,25 @@ fn public_parts(p: &Params, e: &Integer, a: &Integer, b: &Integer) -> (Integer, 
     let e_a = divm(&e_prime, &Integer::from(p.g.pow_mod_ref(&aa, &p.n).unwrap()), &p.n);
     let e_b = divm(&Integer::from(p.g.pow_mod_ref(&bb, &p.n).unwrap()), &e_prime, &p.n);
     (e_prime, e_a, e_b)
+}
+
+/// transplant the sub-proofs of the honest range proof `pj` (JSON) onto the commitment value `e2`
+pub fn transplant(p: &Params, pj: &Value, e2: &Integer, a: &Integer, b: &Integer, overwrite_square_e: bool) -> Value {
+    let (e_prime2, e_a, e_b) = public_parts(p, e2, a, b);
+    let ea2 = int_of(&pj["proof_of_tolerance"]["E_a_2"]).unwrap();
+    let eb2 = int_of(&pj["proof_of_tolerance"]["E_b_2"]).unwrap();
+    let ea1 = divm(&e_a, &ea2, &p.n);
+    let eb1 = divm(&e_b, &eb2, &p.n);
+    let mut j = pj.clone();
+    set_leaf(&mut j, "/E", e2);
+    set_leaf(&mut j, "/E_prime", &e_prime2);
+    set_leaf(&mut j, "/proof_of_tolerance/E_a_1", &ea1);
+    set_leaf(&mut j, "/proof_of_tolerance/E_b_1", &eb1);
+    if overwrite_square_e {
+        set_leaf(&mut j, "/proof_of_tolerance/proof_of_square_a/E", &ea1);
+        set_leaf(&mut j, "/proof_of_tolerance/proof_of_square_b/E", &eb1);
+    }
+    j
 }
 
 fn check_one(rep: &Report, ck: &str, c: &Case, params: &[Params]) -> CheckResult {
@@ -216,15 +235,8 @@ fn check_one(rep: &Report, ck: &str, c: &Case, params: &[Params]) -> CheckResult
 
     // ---- negative (iii): every integer leaf ----------------------------------------------------------
     let leaves = int_leaves(&pj);
-    let mut edits: Vec<(usize, u8)> = (0..leaves.len()).flat_map(|li| (0..4u8).map(move |e| (li, e))).collect();
-    let total = edits.len();
-    if c.leaf_edits != 0 && c.leaf_edits < total {
-        for i in 0..c.leaf_edits {
-            let j = i + (splitmix(&mut st) as usize) % (total - i);
-            edits.swap(i, j);
-        }
-        edits.truncate(c.leaf_edits);
-    } else {
+    let edits = pick_edits(&leaves, c.leaf_edits, &mut st);
+    if c.leaf_edits == 0 || c.leaf_edits >= leaves.len() * 4 {
         rep.exhaustive(format!("every integer leaf ({}) of a range proof x {{+1, -1, 0, sibling}}", leaves.len()));
     }
     for (li, e) in edits {
